@@ -25,6 +25,7 @@ def conds_streamHTTP_RecvMsg : List String := [
    "if count == 0",
    "if err := s.params.set(args); err != nil",
    "return err",
+   "if sh := s.opts.statsHandler; sh != nil && !(s.method.hasBody && s.hasBody)",
    "return nil"
   ]
 
@@ -133,6 +134,7 @@ def conds_streamWS_RecvMsg : List String := [
    "if s.recvN == 1",
    "if err := s.params.set(args); err != nil",
    "return err",
+   "if sh := s.stats; sh != nil",
    "return nil"
   ]
 
@@ -143,6 +145,7 @@ def conds_streamWS_SendMsg : List String := [
    "return err",
    "if err := wsutil.WriteServerMessage(s.conn, ws.OpText, b); err != nil",
    "return err",
+   "if sh := s.stats; sh != nil",
    "return nil"
   ]
 
